@@ -6,13 +6,10 @@
 (* (b) writes the full sign matrix to matrix.json, which the Go side       *)
 (* compares with bsonkit.Compare on every ordered pair.                    *)
 (***************************************************************************)
-EXTENDS Integers, Sequences, FiniteSets, TLC, Json
+EXTENDS BSON
 
-StrT == JsonDeserialize("strings.json")
 Pool == JsonDeserialize("pool.json")
 KSel == JsonDeserialize("ksel.json")      \* sequence of pool indices used for k
-
-INSTANCE BSON WITH Str <- StrT
 
 N == Len(Pool)
 M == TLCEval([a \in 1..N |-> [b \in 1..N |-> Cmp(Pool[a], Pool[b])]])
